@@ -88,6 +88,7 @@ type Exec struct {
 	pathInline bool
 	pathSteps  int
 	pruneQueries, pruned int
+	symCache   map[int]map[string]bool
 	specWF     []*Term // well-formedness facts of values loaded inside spec functions (see wfLoaded)
 	deadline   time.Time
 }
